@@ -406,6 +406,16 @@ func RunScript(c ScriptCase, flushProperty bool) harn.Result {
 				}
 				m.Tag = orig.tag
 				SetMarker(&m, 0xDDDD0000+uint32(si))
+				if m.Kind == refwire.Tflush {
+					// a flush is a request like any other: one that reuses an outstanding tag
+					// as its own tag is a duplicate, whatever it asks to flush
+					if st.TagSel%2 == 0 {
+						m.Oldtag = orig.tag
+					} else {
+						m.Oldtag = 0x7777
+					}
+					e.classes["duptag_tflush"] = true
+				}
 				before := h.Count()
 				orig.dupPending++
 				e.tracef("send %s on outstanding tag %d", refwire.KindName[m.Kind], m.Tag)
@@ -420,6 +430,9 @@ func RunScript(c ScriptCase, flushProperty bool) harn.Result {
 				}
 				e.classes["duptag"] = true
 				continue
+			}
+			if m.Kind == refwire.Tflush {
+				continue // flushes are only sent by flush steps and as duplicate-tag requests
 			}
 			// pick the tag
 			reused := false
